@@ -124,7 +124,7 @@ theorem render_function_of_inputs {C : Type} (parse : C → Option (List Node)) 
 
 /-- every render starts with empty v-once bookkeeping, whatever earlier renders saw -/
 theorem seen_starts_empty (W : World) (fuel : Nat) (file : Str) (dom : List Node) (stack : Stack) :
-    evaluatePage W fuel file dom stack = evalList W fuel { slots := none, chain := [file] } { stack := stack, seen := [] } (resolveTagsList W.comps dom) := rfl
+    evaluatePage W fuel file dom stack = evalList W fuel { slots := [], chain := [file] } { stack := stack, seen := [] } (resolveTagsList W.comps dom) := rfl
 
 /-! non-vacuity -/
 example : runPool true [] [.put [(['a'], .nil)], .put [(['b'], .nil)], .get 1, .get 0, .get 7] = [[], [], []] := by rfl
